@@ -19,15 +19,30 @@ pointer                                   address (index into the heap array)
 `*r = …` on an existing leaf              `Prog.pokeLeaf`       (NOT used by the view layer: fact inventory)
 
 `RebindLeft/Right`, `Getter`, `Setter/DeeperSetter` (with expansion), `SubtreeFill*`,
-`ZeroNode` are *programs* over these primitives (they only read cells and allocate new
-pairs); `setPath` below is the rebinding spine they build.
+`ZeroNode`, `SummaryInto` are *programs* over these primitives (they only read cells, hash, and
+allocate new cells); `setPath` / `setPathX` below are the rebinding spines that
+`Setter/DeeperSetter` build (without / with expansion of zero summaries).
+
+The memo field is invisible to `read`: in the Go sources `PairNode.Value` is read and written
+only inside `PairNode.MerkleRoot` (fact inventory).
+
+Contents: cells, heaps, traces; `absNode` (erasure to the pure model); `rootH`; `Prog`, `NoPoke`,
+`Safe`; `step1` (one primitive) and `run` (big step); predicates (`WF`, `SameStruct`, `Ext`,
+`MemoValid`, `NoZeroOut`, `TopMemo`, `FullyMemo`, `MemoClosed`, `AllMemo`, `Reach`, `UReach`);
+`setPath`, `setPathX`, `Spine`, `Spn`; `reloc`; `RootEdit`; threads (`Sys`, `Sys.step`, `Sys.exec`,
+`soloN`, `Loc`); executable checkers and the example objects of the non-vacuity `example`s.
 
 Modelling limits (stated, not hidden):
 * a nil child (`NewPairNode(nil, x)`) is not representable; `allocPair` with an address that
   does not exist aborts the program at once (in Go the pair could be built, and hashing it
   panics).  `root`/`pokeLeaf` on an address that does not exist abort (Go: nil dereference).
-* addresses are plain numbers; Go clients cannot fabricate pointers.  Theorems that need this
-  (copy detachment, threads) use a private address region per client.
+* addresses are plain numbers, and a `Prog` continuation may inspect them; Go clients cannot
+  fabricate pointers nor see their numeric value.  Where that matters it is made explicit:
+  `Safe` (only legitimately held addresses), `reloc` (a client expressed in a shifted address
+  space), a private address region per thread.
+* a cyclic or forward-pointing heap cannot be built by `allocPair` (children must exist), as in
+  Go without in-place writes to `LeftChild/RightChild` (there are none: fact inventory); `rootH`
+  runs on fuel = address + 1, which is exact for such heaps (`WF`).
 -/
 import ZtypV.Basic
 namespace ZtypV.H
@@ -114,6 +129,25 @@ inductive NoPoke {α : Type} : Prog α → Prop where
   | allocPair (l r : Nat) (k : Nat → Prog α) : (∀ a, NoPoke (k a)) → NoPoke (.allocPair l r k)
   | read (a : Nat) (k : Option (Sum Root (Nat × Nat)) → Prog α) : (∀ c, NoPoke (k c)) → NoPoke (.read a k)
   | root (a : Nat) (k : Root → Prog α) : (∀ v, NoPoke (k v)) → NoPoke (.root a k)
+
+/-- the child addresses a `read` result reveals -/
+def childOf : Option (Sum Root (Nat × Nat)) → Nat → Prop
+  | some (.inr (l, r)), z => z = l ∨ z = r
+  | _, _ => False
+
+/-- `Safe K p`: the client uses only addresses it legitimately holds — the set `K` it starts
+    with, addresses returned by its own allocations, and children revealed by reads of such
+    addresses (Go: a client cannot fabricate pointers).  Poke-free by construction. -/
+inductive Safe {α : Type} : (Nat → Prop) → Prog α → Prop where
+  | ret (K : Nat → Prop) (a : α) : Safe K (.ret a)
+  | allocLeaf (K : Nat → Prop) (r : Root) (k : Nat → Prog α) :
+      (∀ a, Safe (fun z => K z ∨ z = a) (k a)) → Safe K (.allocLeaf r k)
+  | allocPair (K : Nat → Prop) (l r : Nat) (k : Nat → Prog α) : K l → K r →
+      (∀ a, Safe (fun z => K z ∨ z = a) (k a)) → Safe K (.allocPair l r k)
+  | read (K : Nat → Prop) (a : Nat) (k : Option (Sum Root (Nat × Nat)) → Prog α) : K a →
+      (∀ c, Safe (fun z => K z ∨ childOf c z) (k c)) → Safe K (.read a k)
+  | root (K : Nat → Prop) (a : Nat) (k : Root → Prog α) : K a →
+      (∀ v, Safe K (k v)) → Safe K (.root a k)
 
 /-- one primitive: finished, aborted (Go panic / unrepresentable nil), or the rest of the program -/
 inductive Status (α : Type) where
@@ -263,6 +297,49 @@ def setPath : List Bool → Nat → Nat → Prog (Option Nat)
             | none => .ret none)
       | _ => .ret none)
 
+/-- `setPath` with expansion (`DeeperSetter(…, expand = true)`): `zs d` is the address of the
+    shared zero leaf `&ZeroHashes[d]`.  A leaf met on the path with `k+1` levels still to go is
+    expanded only if its value equals that of `zs (k+1)` (only zero summaries are expanded); the
+    code then builds the throw-away pair `NewPairNode(child, child)` with `child = ZeroNode(k)`,
+    continues into it, and the link rebinds with `child` as sibling. -/
+def setPathX (zs : Nat → Nat) : List Bool → Nat → Nat → Prog (Option Nat)
+  | [], _, y => .ret (some y)
+  | b :: bs, x, y =>
+    .read x (fun c =>
+      match c with
+      | some (.inr (l, r)) =>
+        if b then
+          (setPathX zs bs r y).bind (fun o => match o with
+            | some r' => .allocPair l r' (fun a => .ret (some a))
+            | none => .ret none)
+        else
+          (setPathX zs bs l y).bind (fun o => match o with
+            | some l' => .allocPair l' r (fun a => .ret (some a))
+            | none => .ret none)
+      | some (.inl v) =>
+        .read (zs (bs.length + 1)) (fun cz =>
+          match cz with
+          | some (.inl vz) =>
+            if v = vz then
+              .allocPair (zs bs.length) (zs bs.length) (fun _ =>
+                (setPathX zs bs (zs bs.length) y).bind (fun o => match o with
+                  | some c' =>
+                    if b then .allocPair (zs bs.length) c' (fun a => .ret (some a))
+                    else .allocPair c' (zs bs.length) (fun a => .ret (some a))
+                  | none => .ret none))
+            else .ret none
+          | _ => .ret none)
+      | none => .ret none)
+
+/-- `Spn hp x d`: `x` is the top of a chain of at most `d` unset pairs whose off-chain children
+    answer `MerkleRoot` from their memo (or are leaves) — the shape of a freshly rebound path -/
+inductive Spn : Heap → Nat → Nat → Prop where
+  | base {hp : Heap} {x : Nat} (d : Nat) : TopMemo hp x → Spn hp x d
+  | right {hp : Heap} {x l r d : Nat} : hp[x]? = some (Cell.pair z0 l r) → TopMemo hp l → Spn hp r d →
+      Spn hp x (d+1)
+  | left {hp : Heap} {x l r d : Nat} : hp[x]? = some (Cell.pair z0 l r) → Spn hp l d → TopMemo hp r →
+      Spn hp x (d+1)
+
 /-- the pure counterpart of `setPath` -/
 def Node.setAt : List Bool → Node → Node → Option Node
   | [], _, y => some y
@@ -281,6 +358,32 @@ inductive Spine : Heap → Heap → List Bool → Nat → Nat → Nat → Prop w
   | left {hp hp1 : Heap} {bs : List Bool} {x y c' : Nat} (m : Root) (l r : Nat) :
       hp[x]? = some (Cell.pair m l r) → Spine hp hp1 bs l y c' → c' < hp1.size → r < hp1.size →
       Spine hp (hp1.push (.pair z0 c' r)) (false :: bs) x y hp1.size
+
+/-! ### relocation: the same client in a heap where `n` foreign cells sit at addresses `s … s+n-1` -/
+
+/-- own address ↦ address in the bigger heap -/
+def sh (s n x : Nat) : Nat := if x < s then x else x + n
+/-- and back -/
+def unsh (s n x : Nat) : Nat := if x < s then x else x - n
+
+def shCell (s n : Nat) : Cell → Cell
+  | .leaf r => .leaf r
+  | .pair m l r => .pair m (sh s n l) (sh s n r)
+
+def unshView (s n : Nat) : Sum Root (Nat × Nat) → Sum Root (Nat × Nat)
+  | .inl r => .inl r
+  | .inr (l, r) => .inr (unsh s n l, unsh s n r)
+
+/-- A Go client never sees the numeric value of a pointer; a `Prog` does.  `reloc s n p` is the
+    client `p` expressed in the address space in which every address `≥ s` is shifted by `n`:
+    addresses it passes to the machine are shifted, addresses it receives are shifted back. -/
+def reloc (s n : Nat) : Prog α → Prog α
+  | .ret a => .ret a
+  | .allocLeaf r k => .allocLeaf r (fun a => reloc s n (k (unsh s n a)))
+  | .allocPair l r k => .allocPair (sh s n l) (sh s n r) (fun a => reloc s n (k (unsh s n a)))
+  | .read a k => .read (sh s n a) (fun c => reloc s n (k (c.map (unshView s n))))
+  | .root a k => .root (sh s n a) (fun v => reloc s n (k v))
+  | .pokeLeaf a r k => .pokeLeaf (sh s n a) r (fun u => reloc s n (k u))
 
 /-! ### editing the hash-tree-root requests of a client -/
 
@@ -415,6 +518,17 @@ def exClient : Prog Root :=
 
 /-- a client that writes into the shared zero leaf -/
 def exPoker : Prog Unit := .pokeLeaf 0 (chunkOf [1]) (fun _ => .ret ())
+
+/-- the fully hashed heap plus an unhashed garbage pair (address 5) that no view reaches — e.g. the
+    throw-away `NewPairNode(child, child)` of an expansion, or an intermediate root never hashed -/
+def exHeapG : Heap := exHeapAll.push (.pair z0 0 0)
+
+/-- `0`: zero leaf of depth 0, `1`: zero summary of depth 1 (a leaf holding `h z0 z0`), `2`: a data
+    leaf, `3 = (2, 1)`: a list-like tree whose right half is still the collapsed zero summary -/
+def exHeapZ : Heap := #[.leaf z0, .leaf (exHash z0 z0), .leaf (chunkOf [7]), .pair z0 2 1]
+
+/-- the zero-leaf table of `exHeapZ` (`&ZeroHashes[d]`) -/
+def exZs : Nat → Nat := fun d => if d = 0 then 0 else 1
 
 /-- two goroutines working on forks of node 4 (one mutates and hashes, one only hashes), the rest idle -/
 def exThreads : Nat → Prog Root := fun i =>
